@@ -14,7 +14,8 @@
    The theorems quantify over ALL histories: any order, valid and invalid sizes, repeated values, parts of wider values. *)
 From Coq Require Import ZArith List Bool.
 From Verif Require Import ConstPool.ConstPoolModel ConstPool.ConstPoolSpec ConstPool.ConstPoolInv ConstPool.ConstPoolProofs
-  ConstPool.ConstPoolJudge ConstPool.ConstPoolJudgeProofs ConstPool.ConstPoolTreeBridge ConstPool.ConstPoolPartition ConstPool.ConstPoolSharing.
+  ConstPool.ConstPoolJudge ConstPool.ConstPoolJudgeProofs ConstPool.ConstPoolTreeBridge ConstPool.ConstPoolPartition ConstPool.ConstPoolSharing ConstPool.ConstPoolRBTree.
+From Verif Require Containers.TreeModel Containers.TreeGeneral Containers.TreeRotate.
 Import ListNotations.
 Local Open Scope Z_scope.
 
@@ -240,6 +241,16 @@ Theorem C19_subconstants_shared_example :
 Proof. exact subconstants_example. Qed.
 Print Assumptions C19_subconstants_shared_example.
 
+(* the logging branch of embed_const_pool (model log_layout: items of min(min_item_size(), 8) bytes, size() / width of
+   them): for every non-empty pool the width is 1, 2, 4 or 8, divides min_item_size(), and width * count = size() -- the
+   logged data directives cover the image exactly, no byte is dropped (this is what min_item_size() is for) *)
+Theorem C19_log_layout : forall cmds, wf_cmds cmds -> guard cmds -> 0 < psize (final cmds) ->
+  let p := final cmds in
+  let w := fst (log_layout p) in let c := snd (log_layout p) in
+  (w = 1 \/ w = 2 \/ w = 4 \/ w = 8) /\ w * c = psize p /\ w <= pmin p /\ pmin p mod w = 0 /\ (pmin p <= 8 -> w = pmin p).
+Proof. exact log_layout_thm. Qed.
+Print Assumptions C19_log_layout.
+
 (* Compiler-level constants: BaseCompiler::_new_const adds to the scope's pool and builds the memory operand
    [pool_label + int32_t(offset)] of the constant's size. While the pool stays within 2 GiB the operand's displacement IS the
    offset ConstPool::add answered (so every statement above about offsets holds for the operands the Compiler emits); a refused
@@ -259,6 +270,31 @@ Theorem C19_new_const_beyond_2GiB_refuted :
     snd (cp_add p d s) = Ok 2147483648 /\ snd (new_const_operand p d s) = Some (-2147483648, s).
 Proof. exact new_const_operand_2GiB_refuted. Qed.
 Print Assumptions C19_new_const_beyond_2GiB_refuted.
+
+(* sharing, observable form for EVERY successful add (round 6: no longer only byte-owning constants): whether add(d, s)
+   received storage, hit an identical constant or was itself served from a part of a wider one, adding any aligned part of
+   d of at least 4 bytes afterwards allocates nothing and leaves the pool untouched *)
+Theorem C19_parts_of_added_shared : forall cmds k d s off, wf_cmds cmds -> guard cmds -> added cmds k d s off ->
+  forall s' i, valid_size s' -> 4 <= s' < s -> 0 <= i -> (i + 1) * s' <= s ->
+  exists o', cp_add (final cmds) (slice d (i * s') s') s' = (final cmds, Ok o') /\
+             slice (cp_fill (final cmds)) o' s' = slice d (i * s') s'.
+Proof. exact parts_of_added_shared_thm. Qed.
+Print Assumptions C19_parts_of_added_shared.
+
+Theorem C19_parts_of_added_shared_example :
+  let w := [0; 1; 2; 3; 4; 5; 6; 7; 8; 9; 10; 11; 12; 13; 14; 15] in
+  let cmds := [(w, 16); ([8; 9; 10; 11; 12; 13; 14; 15], 8)] in
+  wf_cmds cmds /\ guard cmds /\ added cmds 1 [8; 9; 10; 11; 12; 13; 14; 15] 8 8 /\
+  cp_add (final cmds) [12; 13; 14; 15] 4 = (final cmds, Ok 12).
+Proof. exact parts_of_added_example. Qed.
+Print Assumptions C19_parts_of_added_shared_example.
+
+(* converse of C19_dedup: an offset determines its constant (two adds of one size answered with the same offset carried the
+   same bytes) -- so for a fixed size, constant |-> offset is injective in both directions *)
+Theorem C19_offset_determines_constant : forall cmds k1 k2 d1 d2 s off, wf_cmds cmds -> guard cmds ->
+  added cmds k1 d1 s off -> added cmds k2 d2 s off -> slice d1 0 s = slice d2 0 s.
+Proof. exact offset_determines_thm. Qed.
+Print Assumptions C19_offset_determines_constant.
 
 (* frame -- what ONE add (from any state satisfying the invariant, whatever it answers) must NOT change: no node is
    removed or altered, size() and alignment() never shrink, a refused add leaves the state untouched, and every byte owned
@@ -297,7 +333,10 @@ Theorem C19_model_built_from_params :
      cp_fill p = fold_left (fun buf t => fold_left (fun b n => if n_shared n then b else write_at b (n_off n) (n_key n)) t buf)
                            (trees p) (repeat 0 (Z.to_nat (psize p)))) /\
   (forall z, wrap_i32 z = (z + 2 ^ (par_new_const_disp_bits model_params - 1)) mod 2 ^ par_new_const_disp_bits model_params
-                          - 2 ^ (par_new_const_disp_bits model_params - 1)).
+                          - 2 ^ (par_new_const_disp_bits model_params - 1)) /\
+  (forall p, psize p <> 0 ->
+     log_layout p = (pow2 (Nat.min (ctz (pmin p)) (par_log_max_log2 model_params)),
+                     psize p / pow2 (Nat.min (ctz (pmin p)) (par_log_max_log2 model_params)))).
 Proof. exact params_used. Qed.
 Print Assumptions C19_model_built_from_params.
 
@@ -336,8 +375,8 @@ Print Assumptions C19_judge_accepts_model.
 
 (* link to C18: the key-sorted node list that models each per-size tree is exactly the abstract set (`ts_ids`, kept by
    sorted_insert / lookup) against which C18 verifies the red-black ArenaTree, under key bytes -> big-endian number
-   (memcmp order = numeric order for equal-length byte strings) and id := node offset. Unbounded; C18's statement that the
-   pointer-level tree realises that abstract set (C18_tree_set_and_rb_small_scope) is bounded (see design/C18.md) *)
+   (memcmp order = numeric order for equal-length byte strings) and id := node offset. Unbounded. (The link to the
+   pointer-level red-black tree itself is C19_tree_realised_by_rb_tree below, also unbounded.) *)
 Theorem C19_tree_is_C18_abstract_set : forall L,
   (forall n t, key_ok L (n_key n) -> Forall (fun m => key_ok L (n_key m)) t ->
      map enc (ConstPoolModel.tree_insert n t) = TreeProofs.sorted_insert (map enc t) (be (n_key n)) (n_off n)) /\
@@ -346,3 +385,63 @@ Theorem C19_tree_is_C18_abstract_set : forall L,
   (forall a b, key_ok L a -> key_ok L b -> key_lt a b = (be a <? be b) /\ (be a = be b -> a = b)).
 Proof. exact tree_bridge_thm. Qed.
 Print Assumptions C19_tree_is_C18_abstract_set.
+
+(* link to C18, UNBOUNDED (round 6; replaces the "C18's tree theorem is bounded" caveat): the key-sorted node list that models
+   a per-size tree is realised by C18's POINTER-LEVEL red-black tree (heap of nodes, iterative top-down insertion of
+   support/arenatree.h as modelled in Containers/TreeModel.v). `RBRel L t ct T next`: the heap tree `ct` represents the abstract
+   red-black tree T (black root, equal black heights, no red-red, height <= 2*(bh-1), distinct node ids in (1, next)), the
+   in-order keys of T are exactly the list's keys (bytes -> big-endian number, memcmp order = numeric order) and lookup finds
+   exactly what tree_get finds. One insertion of an absent key with ANY fuel above 2*height+1 preserves it; moreover the
+   traversal that ConstPool::fill uses (in-order) visits the keys in the list's order, get_loop computes lookup, and no heap
+   cell outside the tree, the new node and the false root changes *)
+Theorem C19_tree_realised_by_rb_tree_step : forall L t ct T next n fuel,
+  RBRel L t ct T next -> key_ok L (n_key n) -> Forall (fun m => key_ok L (n_key m)) t ->
+  ConstPoolModel.tree_get t (n_key n) = None -> (2 * TreeGeneral.bheight T + 1 < fuel)%nat ->
+  let ct' := TreeModel.tree_insert_f fuel ct next (bek n) in
+  exists R, RBRel L (ConstPoolModel.tree_insert n t) ct' R (next + 1) /\
+    (forall f', (TreeGeneral.bheight R < f')%nat ->
+       map (fun x => fst (fst x)) (TreeModel.inorder f' (TreeModel.heap ct') (TreeModel.root ct')) = map bek (ConstPoolModel.tree_insert n t) /\
+       (forall k, TreeModel.get_loop f' (TreeModel.heap ct') (TreeModel.root ct') k = TreeGeneral.lookup R k)) /\
+    (forall i, ~ In i (TreeRotate.bids T) -> i <> TreeModel.HEAD -> i <> next ->
+       TreeModel.hget (TreeModel.heap ct') i = TreeModel.hget (TreeModel.heap ct) i).
+Proof. exact rb_insert_step. Qed.
+Print Assumptions C19_tree_realised_by_rb_tree_step.
+
+(* ... hence for insertion sequences of ANY length (distinct keys of one size class, starting from any related pair, in
+   particular from the empty tree): some fuels exist (2*height+2 at each step) with which the heap-level tree realises the list *)
+Theorem C19_tree_realised_by_rb_tree : forall L ns t ct T next,
+  RBRel L t ct T next -> Forall (fun m => key_ok L (n_key m)) (t ++ ns) -> NoDup (map n_key (t ++ ns)) ->
+  exists fuels T', length fuels = length ns /\
+    RBRel L (build t ns) (ct_build ct next ns fuels) T' (next + Z.of_nat (length ns)).
+Proof. exact rb_insert_run. Qed.
+Print Assumptions C19_tree_realised_by_rb_tree.
+
+(* ... and the FIXED fuel 200 of C18's executable tree_insert is enough for every pool within the guard: a per-size tree of
+   a pool of at most 2^32 bytes has at most 2^32 nodes (they sit at distinct offsets), so its black height is at most 34 and
+   its height at most 66 -- the executable heap-level insertion itself realises the list insertion, its in-order keys are
+   the list and its lookup is the abstract lookup *)
+Theorem C19_tree_realised_by_executable_rb_insert : forall p i ct T next n,
+  Inv p -> psize p <= 4294967296 ->
+  let t := nth i (trees p) [] in let L := Z.to_nat (pow2 i) in
+  RBRel L t ct T next -> key_ok L (n_key n) -> Forall (fun m => key_ok L (n_key m)) t ->
+  ConstPoolModel.tree_get t (n_key n) = None ->
+  exists R, RBRel L (ConstPoolModel.tree_insert n t) (TreeModel.tree_insert ct next (bek n)) R (next + 1) /\
+    TreeModel.tree_keys (TreeModel.tree_insert ct next (bek n)) = map bek (ConstPoolModel.tree_insert n t) /\
+    (forall k, TreeModel.tree_get (TreeModel.tree_insert ct next (bek n)) k = TreeGeneral.lookup R k).
+Proof. exact rb_insert_fuel200. Qed.
+Print Assumptions C19_tree_realised_by_executable_rb_insert.
+
+Theorem C19_tree_realised_by_rb_tree_example :
+  (forall L, RBRel L [] TreeModel.tree_empty TreeGeneral.BL 2) /\
+  (let n1 := mkNode [2; 0] 0 false in let n2 := mkNode [1; 0] 2 false in let n3 := mkNode [0; 7] 4 false in
+   let ct := ct_build TreeModel.tree_empty 2 [n1; n2; n3] [200; 200; 200]%nat in
+   map bek (build [] [n1; n2; n3]) = [7; 256; 512] /\ TreeModel.tree_keys ct = [7; 256; 512] /\ TreeModel.rb_valid ct = true /\
+   TreeModel.tree_get ct 256 = 3 /\ TreeModel.tree_get ct 300 = 0).
+Proof. exact rb_example_full. Qed.
+Print Assumptions C19_tree_realised_by_rb_tree_example.
+
+(* completeness of the judge (round 6): it rejects ONLY transcripts that violate a clause -- judge = true exactly when the
+   clauses of C19_judge_sound hold, so a `C19/coq-judge-rejects` verdict always names a real violation of the property *)
+Theorem C19_judge_iff : forall tr img sz al mn, judge tr img sz al mn = true <-> Judged tr img sz al mn.
+Proof. exact judge_iff. Qed.
+Print Assumptions C19_judge_iff.
